@@ -39,9 +39,36 @@ fn game_for(v: (u8, u8, u8)) -> Game {
 	Game { start, end: None, frames, metadata: b.metadata.clone(), gecko_codes: None, hash: None, quirks: None }
 }
 
+/// a game WITH frames (one frame, two characters) stamped with the version: read from a replay
+/// recorded for that version (for versions above 3.16: the 3.16 layout with the version bytes changed)
+fn game_with_frames(v: (u8, u8, u8)) -> Option<Game> {
+	if v.0 == 0 && v.1 == 0 {
+		return None;
+	}
+	let lay = if (v.0, v.1) > (3, 16) { (3, 16) } else { (v.0, v.1) };
+	let mut a = base_replay(lay, vec![pc(0, false), PortCfg { port: 2, ics: true, ptype: 1 }], 1);
+	a.metadata = None;
+	let mut rec = record(&a);
+	rec.doc.events[0].payload[0] = v.0;
+	rec.doc.events[0].payload[1] = v.1;
+	rec.doc.events[0].payload[2] = v.2;
+	match read_slp(&rec.doc.assemble(), false, false) {
+		Ok(g) => Some(g),
+		Err(f) => crate::common::machinery(&format!("C09: the one-frame replay of version {:?} does not read: {}", v, f.describe())),
+	}
+}
+
 fn check(v: (u8, u8, u8), which: i64) -> Result<(), (String, String)> {
 	let over = v > (3, 16, 0);
-	let g = game_for(v);
+	let g = if which >= 2 {
+		match game_with_frames(v) {
+			Some(g) => g,
+			None => return Ok(()),
+		}
+	} else {
+		game_for(v)
+	};
+	let which = which % 2;
 	let res = if which == 0 { write_slp(&g).map(|_| ()) } else { write_slpp(g, 0).map(|_| ()) };
 	let name = if which == 0 { "slippi::write" } else { "peppi::write" };
 	match (over, res) {
@@ -64,7 +91,7 @@ pub fn o_write_version(_input: &[u8], p: &P) -> Out {
 
 pub fn run() {
 	let cx = ctx();
-	cx.note("rule", json!("ALL 2^24 version triples x slippi::write, and x peppi::write on the refusing side (16.5 M triples) plus every accepted (major,minor) with patch in {0,1,255} (thorough: all 200,705 accepted triples), on a zero-frame game stamped with the triple (version field and raw block; column shapes built for that version): Err iff (major,minor,patch) > (3,16,0). Distinct by construction of the enumeration"));
+	cx.note("rule", json!("ALL 2^24 version triples x slippi::write, and x peppi::write on the refusing side (16.5 M triples) plus every accepted (major,minor) with patch in {0,1,255} (thorough: all 200,705 accepted triples), on a zero-frame game stamped with the triple (version field and raw block; column shapes built for that version), and - for patch in {0,1,255} of every (major,minor) - on a one-frame game read from a replay of that version: Err iff (major,minor,patch) > (3,16,0). Distinct by construction of the enumeration"));
 	cx.note("exhaustive", json!(true));
 	cx.note("assumptions", json!(["the guard is assumed to depend on the version only, not on the rest of the game (it is invoked first in both writers); the game used is the zero-frame one"]));
 	let quick = cx.quick();
@@ -111,8 +138,17 @@ pub fn run() {
 					bad.push(1);
 				}
 			}
+			// the same with a game that HAS frames, for the boundary patches of every (major, minor)
+			if matches!(pa, 0 | 1 | 255) {
+				for w in [2i64, 3] {
+					local.evaluations += 1;
+					if check(v, w).is_err() {
+						bad.push(w);
+					}
+				}
+			}
 			for w in bad {
-				let mut p = P { class: if w == 0 { "slp" } else { "slpp" }, ..Default::default() };
+				let mut p = P { class: ["slp", "slpp", "slp-with-frames", "slpp-with-frames"][w as usize], ..Default::default() };
 				p.n = [w, ma as i64, mi as i64, pa as i64, 0, 0];
 				let empty = Arc::new(vec![]);
 				local.evaluations -= 1;
